@@ -19,6 +19,7 @@ vars == <<ph, case, out>>
 
 U(n, m) == [k |-> "u", n |-> n, m |-> m]
 Bool    == [k |-> "bool"]
+V(n)    == [k |-> "void", n |-> n]
 Fix(e, c) == [k |-> "fix", e |-> e, c |-> c]
 Var(e, c) == [k |-> "var", e |-> e, c |-> c]
 St(f)   == [k |-> "st", f |-> f]
@@ -26,13 +27,15 @@ Un(f)   == [k |-> "un", f |-> f]
 Del(t, x) == [k |-> "del", inner |-> t, x |-> x]
 Hole == [k |-> "hole"]
 
-Bases  == { <<>>, <<U(3, "s")>>, <<U(8, "s"), Bool>> }
+Bases  == { <<>>, <<U(3, "s")>>, <<U(8, "s"), Bool>>, <<Var(U(8, "s"), 3)>> }     \* the last: a base revision of variable length
 F16 == [k |-> "f", n |-> 16, m |-> "s"]
 Extras == { <<U(8, "s")>>, <<Bool>>, <<U(12, "t"), Var(U(3, "s"), 2)>>,
             <<F16>>,                                     \* a float appended at a byte boundary
             <<Del(St(<<U(8, "s")>>), 16)>>,              \* the appended field is itself of a delimited type
             <<Fix(U(8, "s"), 2)>>,                       \* a fixed-length octet array (read in one piece by an implementation)
-            <<Bool, Fix(U(8, "s"), 2)>> }                \* the same, off a byte boundary
+            <<Bool, Fix(U(8, "s"), 2)>>,                 \* the same, off a byte boundary
+            <<V(5), U(8, "s")>>,                         \* padding, then a field
+            <<V(8), Del(St(<<U(8, "s")>>), 16)>> }       \* padding, then a field of a delimited type
 Ctxs == { St(<<Hole>>),
           St(<<U(3, "s"), Hole, U(8, "s")>>),
           St(<<Fix(Hole, 2), U(8, "s")>>),
